@@ -106,6 +106,11 @@ Definition get_authenticated_session (bypass : bool) (validator : str -> bool) (
          if invalid_email || negb (authorize allowed_groups s) then (AccessDenied, true) else (AuthOK (Some s), false)
        end.
 
+(* OAuthCallback, once the code is redeemed, the session enriched and the state checked:
+   `if p.Validator(session.Email) && authorized { SaveSession ... 302 } else { 403 }` *)
+Definition login_admits (validator : str -> bool) (allowed_groups : list str) (s : asession) : bool :=
+  validator (a_email s) && authorize allowed_groups s.
+
 (* ---- auth-only query constraints ---- *)
 (* extractAllowedEntities: all values of the key, split on ',', empty items dropped *)
 Definition extract_entities (values : list str) : list str :=
